@@ -1,7 +1,7 @@
 """C13 -- payment quotes are bound to their signer and to every signed field
 (ant-evm/src/data_payments.rs; the signing side is ant-node/src/quote.rs)."""
 import copy
-from vpc.core import cN, cbytes, clist, copt, cbool, cpair
+from vpc.core import cN, cZ, cbytes, clist, copt, cbool, cpair
 
 IMPORTS = "Require Import V.lib.Serde V.lib.Msgpack V.lib.SymSig V.model.Quote."
 THEOREMS = ["quote_constants", "signing_bytes_injective", "hash_covers_signed_fields", "check_signed_iff",
@@ -11,10 +11,12 @@ THEOREMS = ["quote_constants", "signing_bytes_injective", "hash_covers_signed_fi
             "historical_flags_regression", "historical_verify_iff",
             "history_invariant", "regression_flagged", "regression_between_refuted",
             "issue_constants", "skip_only_if_bad", "not_bad_regression_flagged", "bad_needs_three_strikes",
+            "pre_epoch_never_accepted", "check_signed_z_nonneg", "signing_z_injective",
             "quote_gap_constant", "storecost_ok_iff", "forwarded_quotes_verify", "forged_quote_not_forwarded"]
 RULE = ("quotes built from real ed25519 keys: valid quotes; every single-field and random double-field "
         "mutation of the presented fields against the signed fields (content, timestamp at +-1 ns / same "
-        "second / next second / +-1 h, each metrics field incl. None<->Some and msgpack format boundaries "
+        "second / next second / +-1 h, and all pairs of {epoch, epoch + 1 ns, + 1 s, - 1 ns, - 1 s, - 1 s 1 ns, - 10^9 s} for the "
+        "signed and the presented timestamp (a panic counts as not accepted), each metrics field incl. None<->Some and msgpack format boundaries "
         "127/128/255/256/65535/65536/2^32-1/2^32/2^64-1, rewards address); wrong signer, foreign but "
         "self-consistent quote, wrong claimed identity, undecodable / truncated / re-typed public keys, "
         "junk / truncated / bit-flipped / empty signatures; proofs of 1-5 quotes mixing valid, wrong-signer, "
@@ -599,6 +601,7 @@ def gen(ctx):
     rng = ctx.rng
     quick = ctx.tier == "quick"
     cases = gen_check(rng, 22 if quick else 400)
+    cases += gen_epoch(rng, 2 if quick else 30)
     cases += gen_proof(rng, 160 if quick else 3000)
     cases += gen_expiry(rng, 60 if quick else 600)
     cases += gen_historical(rng, 160 if quick else 3000)
@@ -613,7 +616,11 @@ def gen(ctx):
 # oracle: the property on what the implementation did
 # ------------------------------------------------------------------------------------------------
 def ts_ns(t):
-    return t["s"] * NS + t["n"]
+    """nanoseconds since the epoch; negative for an instant before it (harness flag "neg" / spec "before_ns")"""
+    if "before_ns" in t:
+        return -t["before_ns"]
+    v = t["s"] * NS + t["n"]
+    return -v if t.get("neg") else v
 
 
 def signed_ts_ns(qspec, qout):
@@ -624,14 +631,41 @@ def signed_ts_ns(qspec, qout):
     return ts_ns(of["ts"])
 
 
+EPOCH_TS = [{"s": 0, "n": 0}, {"s": 0, "n": 1}, {"s": 1, "n": 0}, {"before_ns": 1}, {"before_ns": NS},
+            {"before_ns": NS + 1}, {"before_ns": 10 ** 18}]
+
+
+def gen_epoch(rng, n):
+    """timestamps at and around the unix epoch, for the signed quote and for the rewritten one"""
+    cases = []
+    for _ in range(n):
+        f = rnd_fields(rng)
+        k = rng.randrange(NKEYS)
+        for signed in EPOCH_TS:
+            for shown in EPOCH_TS:
+                a, b = copy.deepcopy(f), copy.deepcopy(f)
+                a["ts"], b["ts"] = signed, shown
+                cases.append({"op": "check", "family": "epoch", "nkeys": NKEYS,
+                              "q": quote_spec(b, {"key": k}, {"key": k, "of": a}), "claimed": {"key": k}})
+        # pre-epoch quotes that fail earlier checks: no panic expected, just `false`
+        b = copy.deepcopy(f)
+        b["ts"] = {"before_ns": 5}
+        cases.append({"op": "check", "family": "epoch", "nkeys": NKEYS, "q": quote_spec(b, {"raw": ""}, {"raw": ""}), "claimed": {"key": k}})
+        cases.append({"op": "check", "family": "epoch", "nkeys": NKEYS, "q": quote_spec(b, {"key": k}, {"raw": "00"}),
+                      "claimed": {"key": (k + 1) % NKEYS}})
+    return cases
+
+
 def quote_want(qspec, qout, claimed_hex):
     """(does the property require the quote to verify for `claimed`,
         is the only defect a timestamp change below one second)"""
     if claimed_hex is None or qout["pk_key"] is None or qout["pk_peer"] != claimed_hex:
         return False, False
     sig = qspec["sig"]
-    if "key" not in sig or "truncate" in sig or "flip" in sig or sig["key"] != qout["pk_key"]:
+    if "key" not in sig or "truncate" in sig or "flip" in sig or sig["key"] != qout["pk_key"] or qout.get("sign_panic"):
         return False, False
+    if ts_ns(qout["ts"]) < 0:
+        return False, False           # no signed string exists for an instant before the epoch
     if "of" not in sig:
         return True, False
     of = sig["of"]
@@ -643,6 +677,8 @@ def quote_want(qspec, qout, claimed_hex):
 
 
 def check_bfs(qspec, qout, v):
+    if qout["bfs"] is None:
+        return      # bytes_for_sig panicked (timestamp before the epoch)
     t = qout["ts"]
     want = py_bfs(qspec["content"], t["s"], qspec["m"], qspec["addr"]).hex()
     if qout["bfs"] != want:
@@ -668,7 +704,8 @@ def oracle(c, o):
     if c["op"] == "check":
         check_bfs(c["q"], o["q"], v)
         want, sub = quote_want(c["q"], o["q"], o["claimed"])
-        if o["r"] != want:
+        # a panic (r = None) is "not accepted"; what must never happen is ACCEPTING a quote whose fields differ from the signed ones
+        if (o["r"] is True) != want:
             if o["r"] and sub is True:
                 v.append(("subsecond-timestamp", "quote signed for timestamp %s verifies with timestamp %s (same second, "
                           "other nanoseconds): only whole seconds are signed" % (c["q"]["sig"]["of"]["ts"], c["q"]["ts"])))
@@ -877,6 +914,10 @@ def c_keysys(qouts, encs=()):
 def model_term(c, o):
     if "panic" in o or "error" in o:
         return "false"
+    if c["op"] == "check" and (ts_ns(o["q"]["ts"]) < 0 or o["r"] is None):
+        q = c_quote(c["q"], dict(o["q"], ts={"s": 0, "n": 0}))
+        return "agree_check_z %s %s %s %s %s" % (c_keysys([o["q"]]), q, cZ(ts_ns(o["q"]["ts"])), cbytes(o["claimed"]),
+                                                 copt(o["r"], cbool))
     if c["op"] == "check":
         q = c_quote(c["q"], o["q"])
         K = c_keysys([o["q"]])
@@ -946,6 +987,9 @@ def model_term(c, o):
 
 
 def show(c, o):
+    if c["op"] == "check" and ts_ns(o["q"]["ts"]) < 0:
+        return "check_signed_z %s %s %s %s" % (c_keysys([o["q"]]), c_quote(c["q"], dict(o["q"], ts={"s": 0, "n": 0})),
+                                               cZ(ts_ns(o["q"]["ts"])), cbytes(o["claimed"]))
     if c["op"] == "check":
         q = c_quote(c["q"], o["q"])
         return "(V.lib.Strs.tohex (bytes_for_signing %s), check_signed %s %s %s)" % (q, c_keysys([o["q"]]), q, cbytes(o["claimed"]))
